@@ -439,14 +439,34 @@ Section Block.
   Hypothesis gaslimit_small : 0 <= c_gaslimit cfg < P63.
   Variable proto_max : N.
   Hypothesis proto_ge : c_maxblobs cfg <= Z.of_N proto_max.
+  Variable ccfg : FeesImpl.chain_config.
+  Variable parent_hdr : FeesImpl.header.
+  Variable parent_cancun : bool.
+  Variable head_time : Z.
+  (* the parent of a Cancun block is a Cancun block (Cancun is active from genesis on) *)
+  Hypothesis parent_post_cancun : c_cancun cfg = true -> parent_cancun = true.
 
   Notation generate_work :=
     (generate_work S Rc H Q meta pre_check exec cfg pre_exec post_exec finalize root_of bal_hash_of
-                   receipts_root bloom_of requests_hash).
+                   receipts_root bloom_of requests_hash ccfg parent_hdr parent_cancun head_time).
   Notation process := (process S Rc Q meta pre_check exec cfg pre_exec post_exec finalize).
   Notation validate :=
     (validate S Rc H Q meta pre_check exec cfg pre_exec post_exec finalize root_of bal_hash_of
-              receipts_root bloom_of requests_hash H_eqb).
+              receipts_root bloom_of requests_hash H_eqb ccfg parent_hdr).
+  Notation prepare_excess := (prepare_excess cfg ccfg parent_hdr parent_cancun head_time).
+
+  (* the excess blob gas prepareWork computes with the NEW block's time is what
+     VerifyEIP4844Header recomputes from the header's own time *)
+  Lemma verify_excess_ok ex gl gu bgu r rr bl rq bh :
+    prepare_excess = Some ex ->
+    verify_excess H cfg ccfg parent_hdr (mkHeader H gl gu bgu r rr bl rq bh head_time ex) = true.
+  Proof.
+    unfold Build.prepare_excess, verify_excess. cbn [h_time h_excessblobgas]. intros E.
+    destruct (c_cancun cfg) eqn:Ec; [|reflexivity].
+    rewrite (parent_post_cancun eq_refl) in E.
+    destruct (FeesImpl.calc_excess_blob_gas ccfg parent_hdr head_time) as [e| | |]; try discriminate.
+    injection E as <-. apply Z.eqb_refl.
+  Qed.
 
   Lemma used_new l : exists gp, GasPool_Used (NewGasPool l) = Some (gp, 0).
   Proof.
@@ -485,13 +505,19 @@ Section Block.
     0 <= e_blobs env <= c_maxblobs cfg /\
     Z.of_N (h_blobgasused H (b_header H b)) = 131072 * e_blobs env /\
     sum_blobgas meta (b_txs H b) = h_blobgasused H (b_header H b) /\
-    b_txs H b = e_txs env.
+    b_txs H b = e_txs env /\
+    process_txs S Rc meta pre_check exec cfg (NewGasPool (c_gaslimit cfg)) (pre_exec parent) [] (b_txs H b)
+      = Some (e_pool env, e_state env, e_receipts env) /\
+    (* the header carries the new block's time and the excess blob gas computed with it *)
+    h_time H (b_header H b) = head_time /\
+    prepare_excess = Some (h_excessblobgas H (b_header H b)).
   Proof.
     unfold Build.generate_work. intros E.
+    destruct prepare_excess as [ex|] eqn:Epe; [|discriminate].
     destruct (fill_transactions S Rc meta pre_check exec cfg sigs1 sigs2 prio
                 (make_env S Rc cfg pre_exec parent size0) pp pb) as [[[env' t1] t2]| |] eqn:Ef; try discriminate.
-    destruct (assemble S Rc H Q cfg post_exec finalize root_of bal_hash_of receipts_root bloom_of requests_hash env')
-      as [b'|] eqn:Ea; [|discriminate].
+    destruct (assemble S Rc H Q cfg post_exec finalize root_of bal_hash_of receipts_root bloom_of requests_hash
+                       head_time env' ex) as [b'|] eqn:Ea; [|discriminate].
     injection E as <- <- _ _.
     destruct (make_env_inv parent size0) as (Hs0 & Hl0).
     assert (Hinv : sim S Rc meta pre_check exec cfg (pre_exec parent) env' /\ lim S Rc meta cfg env').
@@ -505,19 +531,20 @@ Section Block.
     assert (Hgas : 0 <= e_gasused env' <= c_gaslimit cfg) by (eapply lim_gas; eauto).
     destruct Hs as (Hp & gp'' & Hu). destruct Hl as (_ & Hb & Hbg & Hsum).
     unfold assemble in Ea. destruct (post_exec (e_state env') (e_receipts env')) as [[s1 q]|] eqn:Epost; [|discriminate].
-    injection Ea as <-. cbn [b_header b_txs h_gasused h_root h_balhash h_receipts h_bloom h_requests h_gaslimit h_blobgasused].
+    injection Ea as <-. cbn [b_header b_txs h_gasused h_root h_balhash h_receipts h_bloom h_requests h_gaslimit h_blobgasused h_time h_excessblobgas].
     assert (Epr : process parent (c_gaslimit cfg) (e_txs env') =
                   Some (mkPR S Rc Q (finalize s1) (e_receipts env') q (e_gasused env'))).
     { unfold Build.process. rewrite Hp, Epost, Hu. reflexivity. }
     split.
     { eexists. split; [exact Epr|]. cbn. auto 8. }
     split.
-    { unfold Build.validate. cbn [b_header b_txs h_gasused h_root h_balhash h_receipts h_bloom h_requests h_gaslimit h_blobgasused].
+    { unfold Build.validate. cbn [b_header b_txs]. rewrite (verify_excess_ok _ _ _ _ _ _ _ _ _ Epe).
+      cbn [h_gasused h_root h_balhash h_receipts h_bloom h_requests h_gaslimit h_blobgasused andb].
       rewrite Epr. cbn [pr_gasused pr_state pr_receipts pr_requests]. rewrite Z.eqb_refl, !H_eqb_refl, Hsum, N.eqb_refl.
       cbn [andb]. rewrite !andb_true_r. apply andb_true_intro. split.
       - apply N.leb_le. unfold BlobTxBlobGasPerBlob. lia.
       - apply N.eqb_eq. unfold BlobTxBlobGasPerBlob. lia. }
-    auto 8.
+    auto 12.
   Qed.
 End Block.
 
@@ -525,59 +552,74 @@ End Block.
 Theorem header_fields_are_recomputed_values :
   forall (S Rc H Q : Type) meta pre_check exec cfg pre_exec post_exec finalize
          (root_of bal_hash_of : S -> H) (receipts_root bloom_of : list Rc -> H) (requests_hash : Q -> H)
+         ccfg parent_hdr parent_cancun head_time
          sigs1 sigs2 prio parent size0 pp pb b env tr1 tr2,
-  well_formed meta exec cfg ->
+  well_formed meta exec cfg -> (c_cancun cfg = true -> parent_cancun = true) ->
   generate_work S Rc H Q meta pre_check exec cfg pre_exec post_exec finalize root_of bal_hash_of
-                receipts_root bloom_of requests_hash sigs1 sigs2 prio parent size0 pp pb
+                receipts_root bloom_of requests_hash ccfg parent_hdr parent_cancun head_time
+                sigs1 sigs2 prio parent size0 pp pb
     = GwBlock S Rc H b env tr1 tr2 ->
-  exists pr, process S Rc Q meta pre_check exec cfg pre_exec post_exec finalize
+  (exists pr, process S Rc Q meta pre_check exec cfg pre_exec post_exec finalize
                      parent (h_gaslimit H (b_header H b)) (b_txs H b) = Some pr /\
     h_gasused H (b_header H b) = pr_gasused S Rc Q pr /\
     h_root H (b_header H b) = root_of (pr_state S Rc Q pr) /\
     h_balhash H (b_header H b) = bal_hash_of (pr_state S Rc Q pr) /\
     h_receipts H (b_header H b) = receipts_root (pr_receipts S Rc Q pr) /\
     h_bloom H (b_header H b) = bloom_of (pr_receipts S Rc Q pr) /\
-    h_requests H (b_header H b) = requests_hash (pr_requests S Rc Q pr).
+    h_requests H (b_header H b) = requests_hash (pr_requests S Rc Q pr)) /\
+  (* excess blob gas: computed with the header's own time, as VerifyEIP4844Header does *)
+  h_time H (b_header H b) = head_time /\
+  (c_cancun cfg = true ->
+   exists e, FeesImpl.calc_excess_blob_gas ccfg parent_hdr (h_time H (b_header H b)) = FeesImpl.Ok e /\
+             h_excessblobgas H (b_header H b) = Some e).
 Proof.
   intros S Rc H Q meta pre_check exec cfg pre_exec post_exec finalize root_of bal_hash_of receipts_root
-         bloom_of requests_hash sigs1 sigs2 prio parent size0 pp pb b env tr1 tr2
-         (W1 & W2 & W3 & W4 & W5) E.
+         bloom_of requests_hash ccfg parent_hdr parent_cancun head_time sigs1 sigs2 prio parent size0 pp pb b env tr1 tr2
+         (W1 & W2 & W3 & W4 & W5) Hpc E.
   destruct (generate_work_sound S Rc H Q meta pre_check exec cfg pre_exec post_exec finalize root_of
               bal_hash_of receipts_root bloom_of requests_hash (fun _ _ => true) (fun _ => eq_refl)
-              W1 W2 W3 W4 W5 (Z.to_N (c_maxblobs cfg)) ltac:(lia) _ _ _ _ _ _ _ _ _ _ _ E)
-    as (Hpr & _ & _ & Hgl & _).
-  rewrite Hgl. exact Hpr.
+              W1 W2 W3 W4 W5 (Z.to_N (c_maxblobs cfg)) ltac:(lia) ccfg parent_hdr parent_cancun head_time Hpc _ _ _ _ _ _ _ _ _ _ _ E)
+    as (Hpr & _ & _ & Hgl & _ & _ & _ & _ & _ & Ht & Hex).
+  rewrite Hgl. split; [exact Hpr|]. split; [exact Ht|].
+  intros Hc. rewrite Ht. unfold prepare_excess in Hex. rewrite Hc, (Hpc Hc) in Hex.
+  destruct (FeesImpl.calc_excess_blob_gas ccfg parent_hdr head_time) as [e| | |]; try discriminate.
+  injection Hex as Hex. eauto.
 Qed.
 
 Theorem built_block_accepted :
   forall (S Rc H Q : Type) meta pre_check exec cfg pre_exec post_exec finalize
          (root_of bal_hash_of : S -> H) (receipts_root bloom_of : list Rc -> H) (requests_hash : Q -> H)
+         ccfg parent_hdr parent_cancun head_time
          (H_eqb : H -> H -> bool) proto_max
          sigs1 sigs2 prio parent size0 pp pb b env tr1 tr2,
   (forall h, H_eqb h h = true) ->
-  well_formed meta exec cfg -> (c_maxblobs cfg <= Z.of_N proto_max) ->
+  well_formed meta exec cfg -> (c_cancun cfg = true -> parent_cancun = true) ->
+  (c_maxblobs cfg <= Z.of_N proto_max) ->
   generate_work S Rc H Q meta pre_check exec cfg pre_exec post_exec finalize root_of bal_hash_of
-                receipts_root bloom_of requests_hash sigs1 sigs2 prio parent size0 pp pb
+                receipts_root bloom_of requests_hash ccfg parent_hdr parent_cancun head_time
+                sigs1 sigs2 prio parent size0 pp pb
     = GwBlock S Rc H b env tr1 tr2 ->
   validate S Rc H Q meta pre_check exec cfg pre_exec post_exec finalize root_of bal_hash_of
-           receipts_root bloom_of requests_hash H_eqb proto_max parent b = true.
+           receipts_root bloom_of requests_hash H_eqb ccfg parent_hdr proto_max parent b = true.
 Proof.
   intros S Rc H Q meta pre_check exec cfg pre_exec post_exec finalize root_of bal_hash_of receipts_root
-         bloom_of requests_hash H_eqb proto_max sigs1 sigs2 prio parent size0 pp pb b env tr1 tr2
-         Hrefl (W1 & W2 & W3 & W4 & W5) Hpm E.
+         bloom_of requests_hash ccfg parent_hdr parent_cancun head_time H_eqb proto_max sigs1 sigs2 prio parent size0 pp pb b env tr1 tr2
+         Hrefl (W1 & W2 & W3 & W4 & W5) Hpc Hpm E.
   destruct (generate_work_sound S Rc H Q meta pre_check exec cfg pre_exec post_exec finalize root_of
               bal_hash_of receipts_root bloom_of requests_hash H_eqb Hrefl
-              W1 W2 W3 W4 W5 proto_max Hpm _ _ _ _ _ _ _ _ _ _ _ E) as (_ & Hv & _).
+              W1 W2 W3 W4 W5 proto_max Hpm ccfg parent_hdr parent_cancun head_time Hpc _ _ _ _ _ _ _ _ _ _ _ E) as (_ & Hv & _).
   exact Hv.
 Qed.
 
 Theorem built_within_limits :
   forall (S Rc H Q : Type) meta pre_check exec cfg pre_exec post_exec finalize
          (root_of bal_hash_of : S -> H) (receipts_root bloom_of : list Rc -> H) (requests_hash : Q -> H)
+         ccfg parent_hdr parent_cancun head_time
          sigs1 sigs2 prio parent size0 pp pb b env tr1 tr2,
-  well_formed meta exec cfg ->
+  well_formed meta exec cfg -> (c_cancun cfg = true -> parent_cancun = true) ->
   generate_work S Rc H Q meta pre_check exec cfg pre_exec post_exec finalize root_of bal_hash_of
-                receipts_root bloom_of requests_hash sigs1 sigs2 prio parent size0 pp pb
+                receipts_root bloom_of requests_hash ccfg parent_hdr parent_cancun head_time
+                sigs1 sigs2 prio parent size0 pp pb
     = GwBlock S Rc H b env tr1 tr2 ->
   (* gas: the header's gas used is the pool's Used() (legacy: the sum of the receipts'
      gas; Amsterdam: max of the two cumulative dimensions) and within the limit *)
@@ -588,34 +630,39 @@ Theorem built_within_limits :
   Z.of_N (h_blobgasused H (b_header H b)) = (131072 * e_blobs env)%Z /\
   sum_blobgas meta (b_txs H b) = h_blobgasused H (b_header H b) /\
   (* every included transaction's apply succeeds at its position: the importer's loop
-     over exactly these transactions, from the same start, does not fail *)
+     over exactly these transactions, from the same start, does not fail and reaches the
+     builder's pool, state and receipts *)
   process_txs S Rc meta pre_check exec cfg (NewGasPool (c_gaslimit cfg)) (pre_exec parent) [] (b_txs H b)
     = Some (e_pool env, e_state env, e_receipts env).
 Proof.
   intros S Rc H Q meta pre_check exec cfg pre_exec post_exec finalize root_of bal_hash_of receipts_root
-         bloom_of requests_hash sigs1 sigs2 prio parent size0 pp pb b env tr1 tr2
-         (W1 & W2 & W3 & W4 & W5) E.
+         bloom_of requests_hash ccfg parent_hdr parent_cancun head_time sigs1 sigs2 prio parent size0 pp pb b env tr1 tr2
+         (W1 & W2 & W3 & W4 & W5) Hpc E.
   destruct (generate_work_sound S Rc H Q meta pre_check exec cfg pre_exec post_exec finalize root_of
               bal_hash_of receipts_root bloom_of requests_hash (fun _ _ => true) (fun _ => eq_refl)
-              W1 W2 W3 W4 W5 (Z.to_N (c_maxblobs cfg)) ltac:(lia) _ _ _ _ _ _ _ _ _ _ _ E)
-    as ((pr & Hpr & _) & _ & Hg & Hgl & Hb & Hbg & Hsum & Htx).
-  rewrite Hgl. repeat (split; [assumption|]).
-  rewrite Htx. unfold process in Hpr. rewrite Htx in Hpr.
-  destruct (process_txs S Rc meta pre_check exec cfg (NewGasPool (c_gaslimit cfg)) (pre_exec parent) [] (e_txs env))
-    as [[[gp s] rs]|] eqn:Ep; [|discriminate].
-  (* the invariant itself gives the exact triple *)
-  unfold Build.generate_work in E.
-  destruct (fill_transactions S Rc meta pre_check exec cfg sigs1 sigs2 prio
-              (make_env S Rc cfg pre_exec parent size0) pp pb) as [[[env' t1] t2]| |] eqn:Ef; try discriminate.
-  destruct (assemble S Rc H Q cfg post_exec finalize root_of bal_hash_of receipts_root bloom_of requests_hash env');
-    [|discriminate].
-  injection E as _ <- _ _.
-  assert (Hs : sim S Rc meta pre_check exec cfg (pre_exec parent) env').
-  { refine (fill_inv S Rc meta pre_check exec cfg (sim S Rc meta pre_check exec cfg (pre_exec parent))
-                     _ _ _ _ _ _ _ _ _ _ _ Ef).
-    - intros e t e' err reached Hse Hc. eapply committed_sim; eauto.
-    - split; [reflexivity|]. cbn. destruct (used_new (c_gaslimit cfg)) as (g & Eg). eauto. }
-  destruct Hs as (Hp & _). rewrite Hp in Ep. symmetry. exact Ep.
+              W1 W2 W3 W4 W5 (Z.to_N (c_maxblobs cfg)) ltac:(lia) ccfg parent_hdr parent_cancun head_time Hpc _ _ _ _ _ _ _ _ _ _ _ E)
+    as (_ & _ & Hg & Hgl & Hb & Hbg & Hsum & _ & Hp & _).
+  rewrite Hgl. auto.
+Qed.
+
+(* failed_attempt_restores_pool: whatever the transaction kind (the blob path of
+   commitBlobTransaction included), an attempt that ends in an error leaves the block gas
+   pool, the state, the included transactions, the receipts and the header's gas / blob gas
+   used exactly as they were: a tried-and-reverted transaction does not eat into the block *)
+Theorem failed_attempt_restores_pool :
+  forall (S Rc : Type) meta pre_check exec cfg (env env' : benv S Rc) t e reached,
+  commit_transaction S Rc meta pre_check exec cfg env t = Ok (env', Some e, reached) ->
+  e_pool env' = e_pool env /\ e_state env' = e_state env /\ e_txs env' = e_txs env /\
+  e_receipts env' = e_receipts env /\ e_gasused env' = e_gasused env /\
+  e_blobgasused env' = e_blobgasused env /\ e_blobs env' = e_blobs env /\
+  e_tcount env' = e_tcount env /\
+  (e_reverted env' = e_reverted env ++ (if reached then [(t, e_tcount env)] else [])).
+Proof.
+  intros S Rc meta pre_check exec cfg env env' t e reached E.
+  apply commit_transaction_spec in E.
+  inversion E as [nb ? ? ?|env1 e1 Ha ?| |]; subst.
+  - rewrite app_nil_r. auto 10.
+  - inversion Ha; subst. cbn. auto 10.
 Qed.
 
 (* ------------------------------------------------------------------------- *)
@@ -953,7 +1000,15 @@ Section Order.
   Qed.
 End Order.
 
+(* Prague rules from genesis; the parent (time 9000) carried 7 blobs: one above the target *)
+Definition ex_ccfg : FeesImpl.chain_config :=
+  FeesImpl.Build_chain_config (Some 0%Z) (Some 0%Z) (Some 0%Z) None None None None None None
+    (Some (FeesImpl.Build_blob_schedule (Some (FeesImpl.Build_blob_config 3 6 3338477))
+             (Some (FeesImpl.Build_blob_config 6 9 5007716)) None None None None None)).
+Definition ex_parent : FeesImpl.header :=
+  FeesImpl.Build_header 1 70000 0 9000 (Some 1000000000%Z) (Some 0%Z) (Some 917504%Z).
+
 Definition ex_run :=
   generate_work (list N) N (list N) N ex_meta ex_pre ex_exec ex_cfg
     (fun s => s) (fun s rs => Some (s, 0%N)) (fun s => s) (fun s => s) (fun s => s)
-    (fun rs => rs) (fun rs => rs) (fun q => [q]) [] [] [] [] 600 ex_pend [].
+    (fun rs => rs) (fun rs => rs) (fun q => [q]) ex_ccfg ex_parent true 9012%Z [] [] [] [] 600 ex_pend [].
